@@ -239,4 +239,140 @@ theorem ring_hash_pole (debug : Bool) {n q : Nat} (hn : 1 ≤ n) (hn30 : n < 2 ^
     rw [e2, Nat.mul_add_div (by omega), Nat.div_eq_of_lt (by omega)]; rfl
   rw [this]
 
+/-! ## the west seams of facets 1, 2, 3 -/
+
+/-- the phantom diamond just west of the first cell of facet `q ≥ 1` is silently mapped to the LAST cell of facet
+    `q − 1` of the same ring (on the other side of the gap between the two Collignon triangles) -/
+theorem hashTail_phantom_west {α : Type} [Num α] (debug : Bool) {n K q : Nat} (dl dh : α) (hn30 : n < 2 ^ 30)
+    (hK1 : 4 * n < K) (hK2 : K < 5 * n) (hq1 : 1 ≤ q) (hq : q < 4) :
+    hashTail debug n dl dh K (n * q + (K - 4 * n + 1) / 2 - 1)
+      = some (tri4 (5 * n - 1 - K) + (q * (5 * n - K) - 1), dl, dh) := by
+  have hlt : tri4 (5 * n - 1 - K) + (q * (5 * n - K) - 1) < 2 ^ 64 := by
+    have h1 : tri4 (5 * n - 1 - K) ≤ tri4 n := tri4_mono (by omega)
+    have h2 := tri4_eq n
+    have h3 : n * (n + 1) ≤ 2 ^ 30 * (2 ^ 30 + 1) := Nat.mul_le_mul (by omega) (by omega)
+    have h4 : q * (5 * n - K) ≤ 3 * (5 * n - K) := Nat.mul_le_mul_right _ (by omega)
+    omega
+  unfold hashTail
+  rw [if_neg (by omega), sub64_of_le (by omega : 1 ≤ 5 * n)]
+  simp only []
+  rw [sub64_of_le (by omega : K ≤ 5 * n - 1)]
+  simp only []
+  rw [if_neg (by omega), if_pos (by omega), sub64_of_le (by omega : 1 ≤ n)]
+  simp only []
+  rw [sub64_of_le (by omega : 5 * n - 1 - K ≤ n - 1)]
+  simp only []
+  rw [shr_and_one]
+  have e : n - 1 - (5 * n - 1 - K) = K - 4 * n := by omega
+  rw [e]
+  have hdiv : (n * q + (K - 4 * n + 1) / 2 - 1) / n = q := by
+    have : n * q + (K - 4 * n + 1) / 2 - 1 = n * q + ((K - 4 * n + 1) / 2 - 1) := by omega
+    rw [this, Nat.mul_add_div (by omega), Nat.div_eq_of_lt (by omega)]; rfl
+  rw [hdiv]
+  have hnq : n * q = (K - 4 * n) * q + q * (5 * n - K) := by
+    have : n = (K - 4 * n) + (5 * n - K) := by omega
+    calc n * q = ((K - 4 * n) + (5 * n - K)) * q := by rw [← this]
+      _ = (K - 4 * n) * q + q * (5 * n - K) := by ring
+  have hpos : 1 ≤ q * (5 * n - K) := Nat.mul_pos (by omega) (by omega)
+  rw [sub64_of_le (by omega)]
+  simp only []
+  rw [Nat.mod_eq_of_lt (by
+    have : n * q + (K - 4 * n + 1) / 2 - 1 - ((K - 4 * n + 1) / 2 + (K - 4 * n) * q) = q * (5 * n - K) - 1 := by omega
+    rw [this]; exact hlt)]
+  congr 2; omega
+
+/-- **F3 on the west seams of facets 1–3**, every `n ≥ 2`: a point of the edge `x = 2q + (y − 1)` of the north triangle
+    `q ≥ 1` below the last ring (`1 ≤ y < 2 − 1/n`; on the sphere `lon = q·π/2`, `lat ≥ asin(2/3)`) is given — silently,
+    in both profiles — to a cell of its ring whose centre lies at least `2/n` further west (`cxI + 2 ≤ n·x`): the closed
+    diamond of half-diagonal `1/n` of that cell does not contain the point. -/
+theorem hashPlane_seam_west (debug : Bool) {n q : Nat} (hn2 : 2 ≤ n) (hn30 : n < 2 ^ 30) (hq1 : 1 ≤ q) (hq : q < 4)
+    {Y : ℝ} (h1 : 1 ≤ Y) (h2 : (n : ℝ) * Y < 2 * n - 1) :
+    ∃ (r i : ℕ) (dl dh : ℝ), r < 4 * n - 1 ∧ i < 4 * perFacet n r ∧
+      hashPlane debug n (2 * q + (Y - 1)) Y = some (ringStart n r + i, dl, dh) ∧
+      (cxI n r i : ℝ) + 2 ≤ n * (2 * q + (Y - 1)) ∧ (n : ℝ) * (2 * q + (Y - 1)) ≤ 7 * n := by
+  have hn0 : (0 : ℝ) < n := by
+    have : 0 < n := by omega
+    exact_mod_cast this
+  have hY2 : Y < 2 := by nlinarith
+  have hqr : (q : ℝ) ≤ 3 := by
+    have : q ≤ 3 := by omega
+    exact_mod_cast this
+  have h0 : 0 ≤ 1 / 2 * (n : ℝ) * (Y - 1) := by
+    have : 0 ≤ Y - 1 := by linarith
+    positivity
+  have ha1 := Nat.floor_le h0
+  have ha2 := Nat.lt_floor_add_one (1 / 2 * (n : ℝ) * (Y - 1))
+  generalize ⌊1 / 2 * (n : ℝ) * (Y - 1)⌋₊ = t at ha1 ha2
+  have ex : 1 / 2 * (n : ℝ) * (2 * q + (Y - 1)) = ((n * q : ℕ) : ℝ) + 1 / 2 * n * (Y - 1) := by push_cast; ring
+  have e : 1 / 2 * (n : ℝ) * (Y + 3) - ((t + 2 * n : ℕ) : ℝ) = 1 / 2 * n * (2 * q + (Y - 1)) - ((n * q + t : ℕ) : ℝ) := by
+    push_cast; ring
+  have hX0 : (0 : ℝ) ≤ 2 * q + (Y - 1) := by
+    have : (0 : ℝ) ≤ q := Nat.cast_nonneg q
+    linarith
+  rw [hashPlane_box debug (by omega) hn30 hX0 (by linarith) (by linarith) (by linarith) (n * q + t) (t + 2 * n)
+    (by rw [ex]; push_cast; linarith) (by rw [ex]; push_cast; linarith)
+    (by push_cast; linarith) (by push_cast; linarith), e]
+  have ht : 2 * t + 1 < n := by
+    have : 2 * (t : ℝ) + 1 < n := by nlinarith
+    exact_mod_cast this
+  have ht' : 1 - (1 / 2 * (n : ℝ) * (2 * q + (Y - 1)) - ((n * q + t : ℕ) : ℝ))
+      ≤ 1 / 2 * (n : ℝ) * (2 * q + (Y - 1)) - ((n * q + t : ℕ) : ℝ) → 2 * t + 2 < n := by
+    intro hc
+    rw [ex] at hc; push_cast at hc
+    have : 2 * (t : ℝ) + 2 < n := by nlinarith
+    exact_mod_cast this
+  have hX : 2 * ((n * q : ℕ) : ℝ) + 2 * t ≤ n * (2 * q + (Y - 1)) := by push_cast; nlinarith
+  have hX7 : (n : ℝ) * (2 * q + (Y - 1)) ≤ 7 * n := by nlinarith
+  generalize 1 / 2 * (n : ℝ) * (2 * q + (Y - 1)) - ((n * q + t : ℕ) : ℝ) = f at *
+  -- the cell returned, for a ring `K = 4n + off`
+  have key : ∀ K, 4 * n + 2 * t + 1 ≤ K → K ≤ 4 * n + 2 * t + 2 → K < 5 * n → n * q + t = n * q + (K - 4 * n + 1) / 2 - 1 →
+      ∃ (r i : ℕ), r < 4 * n - 1 ∧ i < 4 * perFacet n r ∧
+        hashTail debug n f f K (n * q + t) = some (ringStart n r + i, f, f) ∧
+        (cxI n r i : ℝ) + 2 ≤ n * (2 * q + (Y - 1)) := by
+    intro K hK1 hK2 hK5 hI
+    have hr : 5 * n - 1 - K + 1 < n := by omega
+    have hm : perFacet n (5 * n - 1 - K) = 5 * n - K := by unfold perFacet; rw [if_pos hr]; omega
+    have hs : ringStart n (5 * n - 1 - K) = tri4 (5 * n - 1 - K) := by unfold ringStart; rw [if_pos hr]
+    have hc : cxOff n (5 * n - 1 - K) = K - 4 * n + 1 := by unfold cxOff; rw [if_pos hr]; omega
+    have hpos : 1 ≤ q * (5 * n - K) := Nat.mul_pos (by omega) (by omega)
+    have hi : q * (5 * n - K) - 1 = (q - 1) * perFacet n (5 * n - 1 - K) + (5 * n - K - 1) := by
+      rw [hm]
+      have : q * (5 * n - K) = (q - 1) * (5 * n - K) + (5 * n - K) := by
+        have hq' : q = (q - 1) + 1 := by omega
+        calc q * (5 * n - K) = ((q - 1) + 1) * (5 * n - K) := by rw [← hq']
+          _ = (q - 1) * (5 * n - K) + (5 * n - K) := by ring
+      omega
+    have hcx : cxI n (5 * n - 1 - K) (q * (5 * n - K) - 1) = 2 * n * (q - 1) + 2 * (5 * n - K - 1) + (K - 4 * n + 1) := by
+      rw [hi, cxI_facet (by rw [hm]; omega), hc]
+    refine ⟨5 * n - 1 - K, q * (5 * n - K) - 1, by omega, ?_, ?_, ?_⟩
+    · rw [hm]
+      have : q * (5 * n - K) ≤ 3 * (5 * n - K) := Nat.mul_le_mul_right _ (by omega)
+      omega
+    · rw [hI, hashTail_phantom_west debug f f hn30 (by omega) hK5 hq1 hq, hs]
+    · rw [hcx]
+      have e1 : 2 * n * (q - 1) = 2 * (n * q) - 2 * n := by
+        have : n * (q - 1) = n * q - n := by rw [Nat.mul_sub, Nat.mul_one]
+        rw [Nat.mul_assoc, this]; omega
+      have hnq : n ≤ n * q := Nat.le_mul_of_pos_right n (by omega)
+      have e2 : 2 * n * (q - 1) + 2 * (5 * n - K - 1) + (K - 4 * n + 1) + 2 + K = 2 * (n * q) + 4 * n + 1 := by
+        rw [e1]; omega
+      have e3 : ((2 * n * (q - 1) + 2 * (5 * n - K - 1) + (K - 4 * n + 1) : ℕ) : ℝ) + 2 + K = 2 * ((n * q : ℕ) : ℝ) + 4 * n + 1 := by
+        exact_mod_cast e2
+      have hKr : (4 : ℝ) * n + 2 * t + 1 ≤ K := by exact_mod_cast hK1
+      linarith
+  unfold dealWith1x1Box
+  simp only [r_le, r_ge, r_one, le_refl, decide_true, if_true]
+  by_cases c2 : 1 - f ≤ f
+  · have := ht' c2
+    simp only [c2, decide_true, if_true]
+    have e1 : (1 : ℕ) >>> 1 = 0 := rfl
+    rw [e1, Nat.add_zero]
+    obtain ⟨r, i, hr, hi, hh, hc⟩ := key (2 * (t + 2 * n) + 1 + 1) (by omega) (by omega) (by omega) (by omega)
+    exact ⟨r, i, f, f, hr, hi, hh, hc, hX7⟩
+  · simp only [c2, decide_false, Bool.false_eq_true, if_false]
+    have e1 : (0 : ℕ) >>> 1 = 0 := rfl
+    rw [e1, Nat.add_zero]
+    obtain ⟨r, i, hr, hi, hh, hc⟩ := key (2 * (t + 2 * n) + 1 + 0) (by omega) (by omega) (by omega) (by omega)
+    exact ⟨r, i, f, f, hr, hi, hh, hc, hX7⟩
+
 end Hpx.RingReal
